@@ -116,7 +116,7 @@ def blk_m(e):
         return ("li", kids())
     if n == "Quote":
         return ("quote", kids())
-    if n == "Alert":
+    if n in ("Alert", "CustomAlert") or hasattr(e, "alert_type"):
         return ("alert", e.alert_type, kids())
     if n in ("FencedCode", "CustomFencedCode"):
         return ("code", e.lang, e.extra, e.children[0].children.rstrip("\n"))
